@@ -30,8 +30,12 @@ Definition action_exprs (a : action) : list expr :=
   | AStratify s => strat_exprs s
   | ARebalance _ _ props => map snd props
   end.
+(* (of the function library of Derived.apply_fn only functions 0 and 1 take a parameter, the first) *)
 Definition request_exprs (r : request) : list expr :=
-  match r with RFunc _ _ ps => ps | _ => [] end.
+  match r with
+  | RFunc 0 _ ps | RFunc 1 _ ps => firstn 1 ps
+  | _ => []
+  end.
 Definition model_exprs (m : model) : list expr :=
   flat_map (fun f => f_param f :: adj_exprs (f_adjs f)) (m_flows m)
   ++ flat_map strat_exprs (m_strats m)
@@ -42,6 +46,22 @@ Definition model_exprs (m : model) : list expr :=
   ++ flat_map (fun nr => request_exprs (fst (snd nr))) (m_requests m).
 (* model.get_input_parameters() *)
 Definition input_parameters (m : model) : list string := flat_map params_of (model_exprs m).
+
+(* what a run reads: the same, except that derived-output functions pruned by the whitelist are not evaluated *)
+Definition needed_requests (m : model) : list (string * (request * bool)) :=
+  match m_whitelist m with
+  | [] => m_requests m
+  | wl => filter (fun nr => mem_str (fst nr) (needed_for (m_requests m) wl)) (m_requests m)
+  end.
+Definition run_parameters (m : model) : list string :=
+  flat_map params_of
+    (flat_map (fun f => f_param f :: adj_exprs (f_adjs f)) (m_flows m)
+     ++ flat_map strat_exprs (m_strats m)
+     ++ flat_map action_exprs (m_actions m)
+     ++ match m_initpop m with Some d => map snd d | None => [] end
+     ++ match m_arraypop m with Some a => a | None => [] end
+     ++ map snd (m_cvs m)
+     ++ flat_map (fun nr => request_exprs (fst (snd nr))) (needed_requests m)).
 
 Definition supplied (k : string) (p : params) : bool :=
   match assoc k p with Some _ => true | None => false end.
@@ -87,7 +107,7 @@ Definition missing (r : runner) (p : params) : list string :=
                    && match r_dyn r with
                       | None => true
                       | Some dyn => mem_str k dyn || negb (supplied k (r_base r))
-                      end) (input_parameters (r_model r)).
+                      end) (run_parameters (r_model r)).
 
 (* ModelResults.run(parameters) *)
 Definition runner_run (r : runner) (p : params) : result (run_result O) :=
